@@ -49,6 +49,8 @@ CONFIGS = {
     "no_sinks": [SRC_CALL, SRC_PARAM],
     "nothing": [],
     "sink_arg1": [SRC_CALL, SRC_PARAM, rule("sink", "call_stmt", "sink", arg=1)],
+    "both_positions": [SRC_CALL, SRC_PARAM, SNK0, rule("sink", "call_stmt", "sink", arg=1)],          # same callee, two rules that differ in the target only
+    "both_positions_rev": [SRC_CALL, SRC_PARAM, rule("sink", "call_stmt", "sink", arg=1), SNK0],
     "other_language": [dict(r, lang="java") for r in (SRC_CALL, SRC_PARAM, SNK0)],
     "other_unit": [dict(r, unit_name="other.py") for r in (SRC_CALL, SRC_PARAM, SNK0)],
     "other_line": [dict(SRC_CALL, line=999), dict(SRC_PARAM, line=999), SNK0],
@@ -79,6 +81,9 @@ SPECIAL = {
     "parameter_named_like_a_call_rule": 'def handler(source, sink):\n    sink(source)\n    v = sink\n    sink(v)\n\nhandler("a", print)\n',
 }
 PY_FLOW = 'def handler(p_x):\n    v0 = source()\n    sink(v0)\n\nhandler("a")\n'
+JAVA_FLOW = 'public class Main {\n    public static void main(String[] args) {\n        String v0 = source();\n        sink(v0);\n    }\n}\n'
+C_FLOW = 'int main() {\n    char *v0 = source();\n    sink(v0);\n    return 0;\n}\n'
+ENTRY_MAIN = '- method_list: ["%unit_init"]\n- lang: java\n  method_list: ["main"]\n- lang: c\n  method_list: ["main"]\n'
 JS_FLOW = 'function handler(p_x) {\n    var v0 = source();\n    sink(v0);\n}\nhandler("a");\n'
 PROJECTS = {
     "two_files": {"files": {"a.py": PY_FLOW, "b.py": PY_FLOW.replace("v0", "w0")}, "lang": "python",
@@ -94,6 +99,13 @@ PROJECTS = {
                                   "javascript_rules": [dict(SRC_CALL, lang="javascript"), dict(SNK0, lang="javascript")],
                                   "mixed_rules": [SRC_CALL, dict(SNK0, lang="javascript")],
                                   "both": [SRC_CALL, SNK0, dict(SRC_CALL, lang="javascript"), dict(SNK0, lang="javascript")]}},
+    # language names that are substrings of one another ("java" in "javascript", "c" in "javascript")
+    "substring_language_names": {"files": {"Main.java": JAVA_FLOW, "app.js": JS_FLOW, "prog.c": C_FLOW}, "lang": "java,javascript,c", "entry": ENTRY_MAIN,
+                                 "configs": {"javascript_rules": [dict(SRC_CALL, lang="javascript"), dict(SNK0, lang="javascript")],
+                                             "java_rules": [dict(SRC_CALL, lang="java"), dict(SNK0, lang="java")],
+                                             "c_rules": [dict(SRC_CALL, lang="c"), dict(SNK0, lang="c")],
+                                             "java_source_javascript_sink": [dict(SRC_CALL, lang="java"), dict(SNK0, lang="javascript")],
+                                             "all_three": [dict(r, lang=l) for l in ("java", "javascript", "c") for r in (SRC_CALL, SNK0)]}},
 }
 # program-specific rule sets (line numbers are 1-based source lines of that program)
 OWN_CONFIGS = {
@@ -112,12 +124,12 @@ def programs(tier, seed):
         chains = random.Random(seed).sample(chains, 10)
     progs = [("chain:" + c.name, {"p.py": c.render()}, "python", {}) for c in chains]
     progs += [("special:" + n, {"p.py": s}, "python", OWN_CONFIGS.get("special:" + n, {})) for n, s in SPECIAL.items()]
-    progs += [("project:" + n, p["files"], p["lang"], p["configs"]) for n, p in PROJECTS.items()]
+    progs += [("project:" + n, p["files"], p["lang"], dict(p["configs"], _entry=p.get("entry"))) for n, p in PROJECTS.items()]
     return progs
 
 
 def lang_of(fn):
-    return {"py": "python", "js": "javascript"}[fn.rsplit(".", 1)[1]]
+    return {"py": "python", "js": "javascript", "java": "java", "c": "c"}[fn.rsplit(".", 1)[1]]
 
 
 def run(tier, seed):
@@ -127,9 +139,11 @@ def run(tier, seed):
     progs = programs(tier, seed)
     jobs = []
     for pi, (pname, files, lang, own) in enumerate(progs):
+        own = dict(own)
+        entry = own.pop("_entry", None) or "- method_list: [\"%unit_init\"]\n"
         configs = dict(CONFIGS, **own)
         for cname, rules in configs.items():
-            st = {"entry.yaml": "- method_list: [\"%unit_init\"]\n", "propagation.yaml": "[]\n",
+            st = {"entry.yaml": entry, "propagation.yaml": "[]\n",
                   "source.yaml": yaml_rules(rules, "source"), "sink.yaml": yaml_rules(rules, "sink")}
             jobs.append(dict(cmd="run", lang=lang, files=files, dir=os.path.join(root, "r%03d_%s" % (pi, cname)), settings=st,
                              flags=["--nomock"], export=["gir", "modules", "taint"], timeout=900, _p=pname, _c=cname, _rules=rules, _configs=configs,
@@ -181,6 +195,7 @@ def run(tier, seed):
         "states": r.distinct, "transitions": r.generated, "traces_validated_against_impl": len(cases),
         "samples": [{"case": cs["name"], "rules": cs["rules"], "flows": cs["flows"]} for cs in cases[:2]],
         "programs": len(progs), "rule_configurations": sorted({cs["_c"] for cs in cases}), "runs": len(cases), "reported_flows_judged": n_flows,
+        "project_flows": {cs["name"]: len(cs["flows"]) for cs in cases if cs["_p"].startswith("project:")},
         "monotonicity_pairs": sum(len(cs["subset_runs"]) for cs in cases), "violating_runs": n_bad,
         "known_findings_hit": {k: len(x) for k, x in v.hits.items()}, "repo": C.repo_head(), "exhaustive": False,
         "rule": "a case = one lian run (program x rule configuration); TLC computes the flow-insensitive closure for the case's rules and judges each reported flow",
